@@ -641,8 +641,7 @@ class _SetOperation(Selectable, Term):  # type:ignore[misc]
         if self._orderbys:
             querystring += self._orderby_sql(ctx)
 
-        querystring += self._limit_sql(ctx)
-        querystring += self._offset_sql(ctx)
+        querystring += self._pagination_sql(ctx)
 
         if ctx.subquery:
             querystring = "({query})".format(query=querystring)
@@ -681,6 +680,28 @@ class _SetOperation(Selectable, Term):  # type:ignore[misc]
             )
 
         return " ORDER BY {orderby}".format(orderby=",".join(clauses))
+
+    def _pagination_sql(self, ctx: SqlContext) -> str:
+        """
+        The row limiting clause of the whole set operation, in the grammar of the base query's dialect.
+        """
+        if self._limit is None and self._offset is None:
+            return ""
+        if ctx.dialect in (Dialects.MSSQL, Dialects.ORACLE):
+            sql = ""
+            if ctx.dialect == Dialects.MSSQL:
+                # OFFSET needs an ORDER BY and FETCH needs an OFFSET in T-SQL
+                if not self._orderbys:
+                    sql += " ORDER BY (SELECT 0)"
+                sql += " OFFSET {offset} ROWS".format(
+                    offset=self._offset.get_sql(ctx) if self._offset is not None else 0
+                )
+            elif self._offset is not None:
+                sql += " OFFSET {offset} ROWS".format(offset=self._offset.get_sql(ctx))
+            if self._limit is not None:
+                sql += " FETCH NEXT {limit} ROWS ONLY".format(limit=self._limit.get_sql(ctx))
+            return sql
+        return self._limit_sql(ctx) + self._offset_sql(ctx)
 
     def _offset_sql(self, ctx: SqlContext) -> str:
         if self._offset is None:
